@@ -592,7 +592,7 @@ func mutants(name string, base map[string]any) []mutant {
 			m3.env = map[string]string{"__prop__" + envName: txt}
 			m3.same = true
 			add("placeholder-env-unset", p, nil, mutate(base, p, "${env:ZV_UNSET_"+envName+"}"), true)
-			add("placeholder-property-missing-key", p, nil, mutate(base, p, "${property:"+propFile+"#nosuch_"+envName+"}"), true)
+			add("placeholder-property-missing-key", p, nil, mutate(base, p, "${property:"+propFile+"#nosuch_ZV"+"}"), true)
 			add("placeholder-property-missing-file", p, nil, mutate(base, p, "${property:/nosuch/file#k}"), true)
 		}
 	})
@@ -686,7 +686,9 @@ func runMutant(m mutant, baseFP string) error {
 	var props []string
 	for k, v := range m.env {
 		if strings.HasPrefix(k, "__prop__") {
-			props = append(props, strings.TrimPrefix(k, "__prop__")+"="+v)
+			name := strings.TrimPrefix(k, "__prop__")
+			// neighbours whose names extend the key, before and after it
+			props = append(props, name+"_tls=WRONG-LONGER-KEY", name+"="+v, name+"2=WRONG-LONGER-KEY")
 		} else {
 			os.Setenv(k, v)
 			defer os.Unsetenv(k)
@@ -695,7 +697,8 @@ func runMutant(m mutant, baseFP string) error {
 	if props != nil {
 		_ = os.WriteFile(propFile, []byte("other=1\n"+strings.Join(props, "\n")+"\n"), 0o644)
 	} else {
-		_ = os.WriteFile(propFile, []byte("other=1\n"), 0o644)
+		// keys that merely start like the ones asked for below must not satisfy a lookup
+		_ = os.WriteFile(propFile, []byte("other=1\nnosuch_ZV_more=1\n"), 0o644)
 	}
 	conf, err := decode(m.conf)
 	if err != nil && strings.HasPrefix(err.Error(), "PANIC") {
